@@ -30,15 +30,19 @@ Theorem C04_wf_meaning : forall i, wf i <->
   /\ closed (t_parse i) (t_dst i)                          (* the destination starts closed *)
   /\ match t_dix i with                                    (* the destination index is sound (C12) *)
      | None => True
-     | Some x => forall o, ix_has x o = true -> has (t_dst i) o = true
-     end
+     | Some x => ix_detected i x \/ forall o, ix_has x o = true -> has (t_dst i) o = true
+     end                                                   (* ... or stale in the way status() detects
+                                                              and clears: a directory is queried and an
+                                                              indexed directory object has vanished *)
   /\ (t_shallow i = false \/                               (* closed request *)
       forall D l f, In D (t_req i) -> is_dir_oid D = true -> find_tree i D = Some l -> In f l ->
-                    In f (t_req i))).
+                    In f (t_req i))
+  /\ (forall o, is_dir_oid o = true -> t_parse i (t_trunc i o) = None)).
+                                   (* a truncated directory object (non-atomic upload) does not parse *)
 Proof.
   intros i. split.
-  - intros [A B C D E F G]. repeat split; auto; try apply A; try apply B; destruct D; auto.
-  - intros [A [B [C [D [E [F G]]]]]]. constructor; auto.
+  - intros [A B C D E F G H]. repeat split; auto; try apply A; try apply B; destruct D; auto.
+  - intros [A [B [C [D [E [F [G H]]]]]]]. constructor; auto.
 Qed.
 Print Assumptions C04_wf_meaning.
 
@@ -46,6 +50,17 @@ Print Assumptions C04_wf_meaning.
 Theorem C04_prefix_closed : forall i n, wf i -> closed (t_parse i) (w_dst (killed_world i n)).
 Proof. exact prefix_closed. Qed.
 Print Assumptions C04_prefix_closed.
+
+(* and every file a present directory lists is whole: there before, or delivered - never the
+   truncated leftover of a failed non-atomic upload, never an object verification removes *)
+Theorem C04_prefix_intact : forall i n D l f, wf i ->
+  listing (t_parse i) (w_dst (killed_world i n)) D = Some l -> In f l ->
+  has (w_dst (killed_world i n)) f = true /\ (has (t_dst i) f = true \/ delivered i f = true).
+Proof.
+  intros i n D l f Hw HL Hf. destruct (prefix_intact i n Hw D l f HL Hf) as [H1 H2]. split; auto.
+  unfold stable in H2. now apply orb_true_iff in H2.
+Qed.
+Print Assumptions C04_prefix_intact.
 
 Theorem C04_final_closed : forall i, wf i -> closed (t_parse i) (w_dst (final_world i)).
 Proof. exact final_closed. Qed.
@@ -58,14 +73,16 @@ Theorem C04_abort_point_closed : forall i n, wf i ->
 Proof. exact upto_put_closed. Qed.
 Print Assumptions C04_abort_point_closed.
 
-(* a listed file that is not there afterwards: the directory object is withheld, and it is
+(* a listed file that is not there afterwards: the directory object is withheld (absent, or at
+   most the truncated leftover of its own failed non-atomic upload, which parses to nothing), and it is
    reported as failed - unless a listed file is missing on both sides (then it is only withheld:
    that reporting gap is C11's recorded finding) *)
 Theorem C04_withheld : forall i st tr fl D l f,
   wf i -> o_status (transfer i) = Some st -> o_outcome (transfer i) = TOk tr fl ->
   In D (c_new st) -> is_dir_oid D = true -> find_tree i D = Some l -> In f l ->
   has (w_dst (final_world i)) f = false ->
-  has (w_dst (final_world i)) D = false /\ (In D fl \/ exists g, In g l /\ In g (c_missing st)).
+  (has (w_dst (final_world i)) D = false \/ exists b, In (Partial D b) (o_events (transfer i))) /\
+  (In D fl \/ exists g, In g l /\ In g (c_missing st)).
 Proof. exact withheld. Qed.
 Print Assumptions C04_withheld.
 
@@ -88,13 +105,15 @@ Print Assumptions C04_faultfree.
 
 (* "for all first rounds": whatever the first round did and wherever it was killed, the
    destination it leaves is a legal start ([wf]) for the retry of the same request (index-free
-   retry; with an index the additional premise is C12's index soundness) *)
+   retry; with an index the additional premise is C12's index soundness; after non-atomic
+   uploads a truncated leftover counts as present for status, so atomicity is a premise here) *)
 Theorem C04_retry_after_any_round : forall i1 n i2,
   wf i1 ->
   t_src i2 = t_src i1 -> t_cache i2 = t_cache i1 -> t_parse i2 = t_parse i1 ->
   t_req i2 = t_req i1 -> t_shallow i2 = t_shallow i1 ->
   t_dst i2 = w_dst (killed_world i1 n) -> t_dix i2 = None ->
-  ord_ok (t_bord i2) -> ord_ok (t_dord i2) ->
+  ord_ok (t_bord i2) -> ord_ok (t_dord i2) -> trunc_unparsable i2 ->
+  (forall o b, ~ In (Partial o b) (o_events (transfer i1))) ->      (* atomic uploads in the first round *)
   wf i2.
 Proof. exact retry_wf. Qed.
 Print Assumptions C04_retry_after_any_round.
